@@ -76,6 +76,38 @@ class Expander:
 
         return T().visit(clone(e))
 
+    def expand_all(self, e: ast.expr, node: Node, depth: int = 6, limit: int = 24, stop: Set[str] = frozenset()) -> List[ast.expr]:
+        """every value `e` can denote at `node`: local names replaced by the RHS of EACH of their reaching definitions (one expression per combination of
+        definitions, bounded by `limit`); a name one of whose reaching definitions is not an assignment of this function (a parameter, a loop target)
+        stays a name.  A property established for every returned expression holds on every path."""
+        import itertools
+        if depth <= 0:
+            return [clone(e)]
+        names = []
+        for n in ast.walk(e):
+            if isinstance(n, ast.Name) and isinstance(n.ctx, ast.Load) and n.id not in stop and n.id not in names:
+                names.append(n.id)
+        choices = []
+        for x in names:
+            ds = self.defs(node, x)
+            if not ds or any(r is None for _, r in ds):
+                continue
+            alts = []
+            for dn, rhs in ds:
+                alts += self.expand_all(rhs, dn, depth - 1, limit, stop)
+            choices.append((x, alts[:limit]))
+        out = []
+        for combo in itertools.product(*[a for _, a in choices]):
+            mp = dict(zip([x for x, _ in choices], combo))
+
+            class T(ast.NodeTransformer):
+                def visit_Name(self, n):
+                    return clone(mp[n.id]) if isinstance(n.ctx, ast.Load) and n.id in mp else n
+            out.append(T().visit(clone(e)))
+            if len(out) >= limit:
+                break
+        return out
+
     def expand_name(self, name: str, node: Node, depth: int = 12) -> ast.expr:
         return self.expand(ast.Name(id=name, ctx=ast.Load()), node, depth)
 
